@@ -5,10 +5,12 @@ Import-free.
 -/
 namespace IsobarV.Static
 
-/-- State of a `PStaticPattern`: how many elements of the inner pattern have been pulled (`idx`; the
-    held value is element `idx - 1`) and when the current element was selected. -/
+/-- State of a `PStaticPattern`: how many elements of the inner pattern have been pulled since it was
+    last rewound (`idx`), which element is being held (`cur`, an index into the inner pattern) and when
+    it was selected. -/
 structure St where
   idx : Nat := 0
+  cur : Nat := 0
   start : Option Rat := none
   deriving DecidableEq, Repr, Inhabited
 
@@ -17,11 +19,17 @@ structure St where
     For `d > 0` the loop body runs at most once (afterwards `t - start = 0 < d`). -/
 def St.read (s : St) (t d : Rat) : St :=
   match s.start with
-  | none => { idx := s.idx + 1, start := some t }
-  | some st => if d ≤ t - st then { idx := s.idx + 1, start := some t } else s
+  | none => { idx := s.idx + 1, cur := s.idx, start := some t }
+  | some st => if d ≤ t - st then { idx := s.idx + 1, cur := s.idx, start := some t } else s
 
-/-- The element index returned by a read (the state after it holds element `idx - 1`). -/
-def St.held (s : St) : Nat := s.idx - 1
+/-- The element index returned by a read. -/
+def St.held (s : St) : Nat := s.cur
+
+/-- `Pattern.reset` reaching the static pattern (every constructor of a pattern built around it calls it:
+    `PSequence([static])`, `PReset`, `all()`, `Timeline.reset`): `PStaticPattern` has no `reset` of its
+    own, so the inherited one rewinds the INNER pattern and nothing else — the value held and the time it
+    was selected are the shared state and stay. -/
+def St.rewind (s : St) : St := { s with idx := 0 }
 
 def reads (d : Rat) : St → List Rat → St
   | s, [] => s
